@@ -51,7 +51,7 @@ func (Engine) Describe() simcore.Description {
 	return simcore.Description{
 		Real: []string{"full OsmosisApp: x/superfluid keeper, msg server and governance handler, x/lockup (synthetic locks, end-blocker at heights divisible by 120), x/staking and x/distribution of the SDK fork, bank with supply offsets, x/gamm balancer pool, x/concentrated-liquidity full-range positions, x/epochs, x/incentives gauges, real BeginBlocker/EndBlocker of every module, IAVL commit per block, SDK gas metering"},
 		Stub: []string{"CometBFT (the simulator supplies header time/height and message order; no votes, so no downtime slashing)", "ante/post handlers (sender taken as authenticated, no fees)", "governance voting (superfluid assets are enabled by calling the proposal handler directly)"},
-		Rule: "one run = 2-3 validators, 2-4 owners, a uosmo/uion balancer pool and (3 of 4 runs) a uosmo/uion concentrated pool, both enabled as superfluid assets through the governance handler; risk factor, staking unbonding time, epoch length, pool depth and price drawn per run; steps are lock / add-to-lock / superfluid-delegate / lock-and-delegate / undelegate / unbond-lock / undelegate-and-unbond (full, partial) / full-range create-and-delegate / add to a delegated full-range position / begin-unlocking (on delegated, undelegating and plain locks) / withdraw-position on locked positions / price-moving swaps / clock advances (small, to the next epoch, several epochs, across unbonding time, to a marker's end +-1s) / empty-block bursts to the next height divisible by 120 / node restarts, with seeded out-of-gas and forced roll-back on every message kind; after every message, block and epoch refresh the stake of every (denomination, validator) intermediary account, all synthetic locks, all lock-to-account connections, every lock record, owners' share balances and the bond-denom supply-with-offset are compared with a lock-table reference.",
+		Rule: "one run = 2-3 validators, 2-4 owners, a uosmo/uion balancer pool and (3 of 4 runs) a uosmo/uion concentrated pool, both enabled as superfluid assets through the governance handler; risk factor, staking unbonding time, epoch length, pool depth and price drawn per run; steps are lock / add-to-lock / superfluid-delegate / lock-and-delegate / undelegate / unbond-lock / undelegate-and-unbond (full, partial) / full-range create-and-delegate / add to a delegated full-range position / begin-unlocking (on delegated, undelegating and plain locks) / withdraw-position on locked positions / price-moving swaps / clock advances (small, to the next epoch, several epochs, across unbonding time, to a marker's end +-1s) / empty-block bursts to the next height divisible by 120 / node restarts, with seeded out-of-gas and forced roll-back on every message kind; after every message, block and epoch refresh the stake of every (denomination, validator) intermediary account, all synthetic locks, all lock-to-account connections, every lock record, owners' share balances and the bond-denom supply-with-offset are compared with a lock-table reference.; a governance step takes a share denomination off the superfluid asset list (the next refresh then unstakes everything staked for it) or lists it again (between such a change and the next refresh nothing is demanded of that denomination's stake)",
 		Assumptions: []string{
 			"'matches exactly after the epoch refresh' is read as: the integer stake is one of the two integers adjacent to the exact rational value sum(lock amounts) x published multiplier x (1 - MinimumRiskFactor); neither the property nor the README fixes a rounding direction (the README's 'below 1 uosmo is rounded to 0' clause is not enforced)",
 			"the reference value uses the multiplier published by the AssetMultiplier store after the latest refresh and the sum of the amounts of the locks connected to the account (one rounding per account, as the README's invariant section says)",
